@@ -49,6 +49,7 @@ type bApp struct {
 	client    *capnp.Client // the harness' own reference
 	shutdown  int
 	dropped   bool
+	handedOver bool // the harness' only reference went into a result message
 	delivered []*bCall
 }
 
@@ -242,7 +243,14 @@ func (b *brun) impl(a *bApp, ctx context.Context, call *server.Call) error {
 	switch {
 	case flags&bRetFresh != 0:
 		n := b.newApp(a.side)
-		put(n.client.AddRef(), n)
+		if token%2 == 0 {
+			// the only reference travels with the result: the Conns' tables own the capability
+			n.dropped, n.handedOver = true, true
+			put(n.client, n)
+			s.Probe("B_fresh_capability_owned_by_the_connection")
+		} else {
+			put(n.client.AddRef(), n)
+		}
 		s.Probe("B_return_fresh_capability")
 	case flags&bRetBoot != 0:
 		put(b.side[a.side].apps[0].client.AddRef(), b.side[a.side].apps[0])
@@ -433,6 +441,9 @@ func (b *brun) callerTask(side int, idx int, nops int) {
 			case 0:
 				apps := b.side[side].apps
 				c.paramApp = apps[s.Choice("B-param-app", len(apps))]
+				if c.paramApp.handedOver {
+					c.paramApp = apps[0] // (no reference of the application's own left to pass on)
+				}
 			case 1, 2:
 				c.param = lv[s.Choice("B-param-handle", len(lv))]
 				if t := b.handleTarget(c.param); t != nil && t.side != side {
@@ -821,7 +832,9 @@ func (b *brun) mainTask() {
 			continue
 		}
 		a.dropped = true
-		a.client.Release()
+		if !a.handedOver {
+			a.client.Release()
+		}
 		if a.shutdown != 1 && !s.Failed() {
 			s.Fail("export_leak", "export.go:(*Conn).releaseExport", fmt.Sprintf("application capability %v is still referenced although every reference to it was released and every call finished", a))
 			return
